@@ -2,6 +2,7 @@ import FranzVerif.Model.C30
 import FranzVerif.Proof.C30
 import FranzVerif.Proof.C30Ring
 import FranzVerif.Proof.C30Proto
+import FranzVerif.Proof.C30Spec
 /-! C30 — "Work queues and work latches never lose or duplicate work".
 
 Models: `Model.C30` (`workLoop` as a CAS automaton with one action per atomic Load/CAS/Store; `ring[T]` as a
@@ -94,6 +95,37 @@ theorem latch_never_blocks (st : WS) (l : Loc) : ∃ c, (tstep st l c).isSome = 
   | fin pc => exact ⟨.begin, by rcases pc with (_ | _) | _ | _ <;> cases st <;> simp [tstep, mfStep]⟩
   | rawB pc => exact ⟨.begin, by cases pc <;> cases st <;> simp [tstep, mbStep]⟩
   | rawF pc => exact ⟨.begin, by rcases pc with (_ | _) | _ | _ <;> cases st <;> simp [tstep, mfStep]⟩
+
+/-- **Model ⊨ Spec.** The event log of every protocol run of the model — any number of threads, any interleaving —
+    passes the executable Spec the driver evaluates on the implementation's logs: the single-worker scan always,
+    and the no-lost-wake-up scan on every completed run (all threads back to idle). -/
+theorem latch_model_satisfies_spec (n : Nat) (as : List (Nat × Choice)) (s : LS) (evs : List Spec.C30.LEv)
+    (hp : protoOnly as) (hr : runEv (LS.init n) as = some (s, evs)) :
+    Spec.C30.latchSingle evs = true ∧ ((∀ l ∈ s.pcs, l = Loc.idle) → Spec.C30.latchSpec evs = none) := by
+  have h1 : Spec.C30.latchSingle evs = true := by
+    have := single_run as evs hp (linv_init n) hr
+    have hw : (LS.init n).workers = 0 := by simp [LS.init, LS.workers, List.countP_replicate, Loc.isWorker]
+    rw [hw] at this; exact this
+  refine ⟨h1, fun hidle => ?_⟩
+  have hrun := run_of_runEv as evs hr
+  have hpend : s.pending = false := by
+    cases hpd : s.pending
+    · rfl
+    · rcases latch_no_lost_wakeup n as s hp hrun hpd with hw | ⟨_, pc, hf⟩
+      · cases hidle _ hw
+      · cases hidle _ hf
+  have h2 : Spec.C30.latchNoLost evs = true := by
+    apply noLost_of_not_pending
+    have := pending_run as evs hr
+    rw [hpend] at this
+    exact this.symm
+  simp [Spec.C30.latchSpec, h1, h2]
+
+/-- non-vacuity: a completed 2-thread run with a re-loop and its log -/
+example : ∃ s evs, runEv (LS.init 2) [(0, .begin), (0, .begin), (1, .begin), (1, .begin), (0, .work false), (0, .begin),
+      (0, .begin), (0, .work false), (0, .begin), (0, .begin)] = some (s, evs) ∧ (∀ l ∈ s.pcs, l = Loc.idle) ∧
+    evs = [.beginRet 0 true, .beginRet 1 false, .worked 0, .finishRet 0 true, .worked 0, .finishRet 0 false] :=
+  ⟨_, _, rfl, by decide, by decide⟩
 
 /-- Non-vacuity: three threads; 0 starts the loop, 1 signals while it works (state → continue, pending), the
     worker's `maybeFinish(false)` re-loops instead of stopping, works again, then stops. -/
